@@ -45,6 +45,7 @@ type Obligation struct {
 	Pos      string
 	Theory   string
 	NoReplay bool
+	MinItem  int // assumptions made before this item index are not given to the solver (sound: fewer assumptions), type ranges excepted
 }
 
 type ModelVar struct {
@@ -282,6 +283,9 @@ func (o *Obligation) QueryMode(withModel bool, light bool) string {
 				take = needed[it.name]
 			case itAssume:
 				if light && it.heavy {
+					continue
+				}
+				if i < o.MinItem && it.note != "type range" {
 					continue
 				}
 				any := false
@@ -581,7 +585,12 @@ func unsupported(s string) error      { return unsupportedErr{s} }
 
 func FieldOf(t Term, i int) Term {
 	if t.Def != nil {
-		return FieldOf(*t.Def, i)
+		// fold through the definition only when that keeps the term small (otherwise every use would copy a
+		// large sub-term; the accessor applied to the name says the same)
+		if r := FieldOf(*t.Def, i); len(r.S) <= 160 || r.IsConst() {
+			return r
+		}
+		return App(t.Sort.Fields[i].Sort, t.Sort.Fields[i].Name, Term{S: t.S, Sort: t.Sort})
 	}
 	f := t.Sort.Fields[i]
 	// fold (acc (mk ...)) when the term is syntactically a constructor application
